@@ -48,6 +48,8 @@ type c13Graph struct {
 	impl   map[*types.Func][]*c13Node
 	roots  []*c13Node
 	rootOf map[*c13Node]string
+	sites  map[*c13Node][]c13CallSite
+	refs   map[*c13Node][]*c13Node
 }
 
 func c13Origin(fn *types.Func) *types.Func {
@@ -126,12 +128,23 @@ func c13Barrier(pkg *packages.Package, body *ast.BlockStmt) token.Pos {
 		if !ok {
 			continue
 		}
-		lit, ok := ast.Unparen(ds.Call.Fun).(*ast.FuncLit)
-		if !ok {
+		var recBody *ast.BlockStmt
+		if lit, ok := ast.Unparen(ds.Call.Fun).(*ast.FuncLit); ok {
+			recBody = lit.Body
+		} else if id := c13DeferIdent(ds.Call); id != nil {
+			// `defer x.recoverFoo(&result)`: a same-package function whose own body recovers
+			if fd := declOf(pkg, pkg.TypesInfo.Uses[id]); fd != nil {
+				recBody = fd.Body
+			}
+		}
+		if recBody == nil {
 			continue
 		}
 		rec, rep := false, false
-		ast.Inspect(lit.Body, func(x ast.Node) bool {
+		ast.Inspect(recBody, func(x ast.Node) bool {
+			if _, isLit := x.(*ast.FuncLit); isLit && x != ast.Node(recBody) {
+				return false // recover() in a nested literal does not recover for this frame
+			}
 			if call, ok := x.(*ast.CallExpr); ok {
 				if id, ok := ast.Unparen(call.Fun).(*ast.Ident); ok {
 					if b, ok := pkg.TypesInfo.Uses[id].(*types.Builtin); ok {
@@ -315,4 +328,95 @@ func c13TypeName(nt *types.Named) string {
 		return nt.Obj().Name()
 	}
 	return relPkg(nt.Obj().Pkg().Path()) + "." + nt.Obj().Name()
+}
+
+// c13CallSite is one static call of a node's function.
+type c13CallSite struct {
+	caller *c13Node
+	call   *ast.CallExpr
+}
+
+// callSites returns the static call sites of n's function in the reached code.
+func (g *c13Graph) callSites(n *c13Node) []c13CallSite {
+	if g.sites == nil {
+		g.sites = map[*c13Node][]c13CallSite{}
+		for _, m := range g.nodes {
+			if !m.reached {
+				continue
+			}
+			info := m.pkg.TypesInfo
+			ast.Inspect(m.body, func(x ast.Node) bool {
+				call, ok := x.(*ast.CallExpr)
+				if !ok {
+					return true
+				}
+				var id *ast.Ident
+				switch f := ast.Unparen(call.Fun).(type) {
+				case *ast.Ident:
+					id = f
+				case *ast.SelectorExpr:
+					id = f.Sel
+				}
+				if id == nil {
+					return true
+				}
+				if fo, ok := info.Uses[id].(*types.Func); ok {
+					if t := g.byObj[c13Origin(fo)]; t != nil {
+						g.sites[t] = append(g.sites[t], c13CallSite{m, call})
+					}
+				}
+				return true
+			})
+		}
+	}
+	return g.sites[n]
+}
+
+// owner names the function an obligation is attributed to: an unexported function or method
+// that is referenced from exactly one other function of its package belongs to that function
+// (extract-function / inline-function leave the attribution unchanged).
+func (g *c13Graph) owner(n *c13Node) *c13Node {
+	chain := g.ownerChain(n)
+	return chain[len(chain)-1]
+}
+
+// ownerChain returns n followed by its successive owners.
+func (g *c13Graph) ownerChain(n *c13Node) []*c13Node {
+	chain := []*c13Node{n}
+	if g.refs == nil {
+		g.refs = map[*c13Node][]*c13Node{}
+		for _, m := range g.nodes {
+			if !m.reached {
+				continue
+			}
+			for _, t := range m.out {
+				g.refs[t] = append(g.refs[t], m)
+			}
+		}
+	}
+	for depth := 0; depth < 4; depth++ {
+		if n.decl == nil || ast.IsExported(n.decl.Name.Name) {
+			return chain
+		}
+		if _, isRoot := g.rootOf[n]; isRoot {
+			return chain
+		}
+		refs := g.refs[n]
+		if len(refs) != 1 || refs[0].decl == nil || refs[0].pkg != n.pkg || refs[0] == n {
+			return chain
+		}
+		n = refs[0]
+		chain = append(chain, n)
+	}
+	return chain
+}
+
+func c13DeferIdent(call *ast.CallExpr) *ast.Ident {
+	switch f := ast.Unparen(call.Fun).(type) {
+	case *ast.Ident:
+		return f
+	case *ast.SelectorExpr:
+		return f.Sel
+	}
+	return nil
 }
